@@ -13,6 +13,7 @@ import (
 	"encoding/json"
 	"flag"
 	"fmt"
+	"os"
 	"sort"
 
 	pf "github.com/weedbox/pokerface"
@@ -50,7 +51,9 @@ func cmdHoldemConvert(args []string) {
 	in := fs.String("in", "", "raw NDJSON written by harness/vrec")
 	out := fs.String("o", "trace.ndjson", "")
 	runBase := fs.Int("runbase", 0, "")
+	scripts := fs.String("scripts", "", "write the recorded runs as scripts (configuration + operations) for the script-driven drivers")
 	fs.Parse(args)
+	hs := []HScript{}
 	byRun := map[int][]rawLine{}
 	order := []int{}
 	for _, b := range readNDJSON(*in) {
@@ -81,9 +84,22 @@ func cmdHoldemConvert(args []string) {
 			tests[l.Test] = true
 			id := *runBase + run
 			if l.Op == "new" || l.Op == "newFromState" {
-				tw.emit(id, true, "new", -1, 0, nil, parse(l.After), M{"kind": "reset", "test": l.Test})
+				st := parse(l.After)
+				tw.emit(id, true, "new", -1, 0, nil, st, M{"kind": "reset", "test": l.Test})
 				last = stateKey(l.After)
+				if c, ok := cfgOf(st); ok && l.Op == "new" {
+					hs = append(hs, HScript{Run: id, Cfg: c, Note: l.Test})
+				} else {
+					hs = append(hs, HScript{Run: -1})
+				}
 				continue
+			}
+			if len(hs) > 0 && hs[len(hs)-1].Run == id && stateKey(l.Before) == last {
+				h := &hs[len(hs)-1]
+				h.Ops = append(h.Ops, HOp{l.Op, l.Seat, l.X})
+				if l.Op == "Start" && l.Err == "" {
+					h.Cfg.Deck = append([]string{}, parse(l.After).Meta.Deck...)
+				}
 			}
 			if k := stateKey(l.Before); k != last {
 				// the test edited the state by hand (or used a plumbing method): from here on the state is no longer
@@ -106,6 +122,20 @@ func cmdHoldemConvert(args []string) {
 		}
 	}
 	tw.close()
+	if *scripts != "" {
+		f, err := os.Create(*scripts)
+		if err != nil {
+			fatal("scripts: %v", err)
+		}
+		for _, h := range hs {
+			if h.Run >= 0 && len(h.Ops) > 0 {
+				b, _ := json.Marshal(h)
+				f.Write(b)
+				f.Write([]byte("\n"))
+			}
+		}
+		f.Close()
+	}
 	names := []string{}
 	for t := range tests {
 		names = append(names, t)
@@ -113,6 +143,39 @@ func cmdHoldemConvert(args []string) {
 	sort.Strings(names)
 	b, _ := json.Marshal(M{"runs": len(order), "steps": calls, "lines": tw.lines, "jumps": jumps, "tests": names})
 	fmt.Println(string(b))
+}
+
+// cfgOf: the script configuration of a freshly created game, when the script format can express it
+func cfgOf(st *pf.GameState) (HCfg, bool) {
+	c := HCfg{Ante: st.Meta.Ante, Dealer: st.Meta.Blind.Dealer, SB: st.Meta.Blind.SB, BB: st.Meta.Blind.BB, Limit: st.Meta.Limit,
+		HoleN: st.Meta.HoleCardsCount, ReqHole: st.Meta.RequiredHoleCardsCount}
+	switch {
+	case eqRanking(st.Meta.CombinationPowers, rankingStandard):
+		c.Ranking = "standard"
+	case eqRanking(st.Meta.CombinationPowers, rankingShort):
+		c.Ranking = "short"
+	default:
+		return c, false
+	}
+	switch len(st.Meta.Deck) {
+	case 52:
+		c.DeckKind = "std"
+	case 36:
+		c.DeckKind = "short"
+	case 0:
+		c.DeckKind = "none"
+	default:
+		return c, false
+	}
+	if st.Meta.BurnCount < 1 || st.Status.CurrentEvent != "" {
+		return c, false
+	}
+	c.BurnOpt = st.Meta.BurnCount - 1
+	for _, p := range st.Players {
+		c.Bank = append(c.Bank, p.Bankroll)
+		c.Pos = append(c.Pos, append([]string{}, p.Positions...))
+	}
+	return c, true
 }
 
 func init() {
